@@ -39,6 +39,12 @@ def groups(n, seed):
         elif sc == 4:
             rs["scaling"] = ("objonly", int([3, -2, 1, -4][(i // 6) % 4]))       # only the objective is rescaled
         gs.append({"tag": "C01", "runs": [rs]})
+    # minimisers at vertices of boxes with non-dyadic bounds, reached by clipped steps: "variable bounds hold exactly"
+    from pygradflow.params import StepControlType
+    for i in range(max(12, n // 8)):
+        pk = dict(step_control_type=[StepControlType.DistanceRatio, StepControlType.Exact, StepControlType.Fixed, StepControlType.ResiduumRatio][i % 4],
+                  newton_type=gen.NEWTONS[(i // 4) % 3], lamb_init=[1.0, 0.1, 10.0][i % 3], iteration_limit=150, display_interval=1e9)
+        gs.append({"tag": "C01.vertex", "runs": [{"prob": ("boxlp", int(rng.integers(0, 2 ** 31)), int(rng.integers(2, 6))), "params": pk}]})
     return gs
 
 
